@@ -168,30 +168,59 @@ pub fn random(args: &Args) {
         let mut now: i64 = rng.range(0, 3000) as i64;
         let nq = rng.range(1, 2) as usize;
         let mut handles = vec![];
+        // the second query starts together with the first or up to 6 s later (queries at different back-off stages)
+        let start2: i64 = if nq == 2 && rng.chance(60) { now + rng.range(1, 6000) as i64 } else { now };
+        let mut started = 0usize;
         for q in 0..nq {
+            if q == 1 && start2 > now {
+                break;
+            }
             let name = names[rng.below(3) as usize];
             let r = sockets.get_mut::<dns::Socket>(h).start_query(iface.context(), name, DnsQueryType::A);
             t.ev(json!({"ev":"api","now":now,"call":"start","q":q,"name":name,"ok":r.is_ok()}));
+            started += 1;
             if let Ok(hd) = r {
                 handles.push((q, hd, name, true));
             }
         }
+        let probing = rng.chance(60);
         // server behaviour
         let mode = rng.below(5); // 0 honest, 1 silent, 2 hostile then honest, 3 hostile only, 4 lossy honest
         let mut pending: Vec<(i64, Vec<u8>)> = vec![];
         let mut steps = 0;
         let horizon = now + (nservers as i64) * 40_000 + 20_000;
-        while now < horizon && steps < 400 && handles.iter().any(|x| x.3) {
+        while now < horizon && steps < 400 && (handles.iter().any(|x| x.3) || started < nq) {
             steps += 1;
+            if started < nq && now >= start2 {
+                let name = names[rng.below(3) as usize];
+                let r = sockets.get_mut::<dns::Socket>(h).start_query(iface.context(), name, DnsQueryType::A);
+                t.ev(json!({"ev":"api","now":now,"call":"start","q":1,"name":name,"ok":r.is_ok()}));
+                started += 1;
+                if let Ok(hd) = r {
+                    handles.push((1, hd, name, true));
+                }
+            }
             let d = iface.poll_at(Instant::from_millis(now), &sockets).map(|x| (x.total_micros() + 999).div_euclid(1000)).unwrap_or(-1);
             pending.sort_by_key(|x| x.0);
             let next_rx = pending.first().map(|x| x.0).unwrap_or(i64::MAX);
             let mut tpoll = if d < 0 { now + 1000 } else { d.max(now) };
+            if started < nq {
+                tpoll = tpoll.min(start2.max(now));
+            }
             let mut frames = vec![];
             if next_rx != i64::MAX && next_rx <= tpoll {
                 tpoll = next_rx.max(now);
                 while !pending.is_empty() && pending[0].0 <= tpoll {
                     frames.push(pending.remove(0).1);
+                }
+            }
+            // C13 probe: sometimes poll strictly before the announced deadline with nothing arriving: nothing may happen
+            let mut probe = false;
+            if probing && frames.is_empty() && rng.chance(35) {
+                let lim = (if d < 0 { now + 1000 } else { d }).min(next_rx).min(if started < nq { start2 } else { i64::MAX });
+                if lim > now + 1 {
+                    tpoll = now + 1 + rng.below((lim - now - 1) as u64) as i64;
+                    probe = true;
                 }
             }
             now = tpoll.min(horizon);
@@ -288,7 +317,7 @@ pub fn random(args: &Args) {
                     Err(dns::GetQueryResultError::Pending) => {}
                 }
             }
-            t.ev(json!({"ev":"poll","now":now,"deadline":d,"rx":rxp,"out":outs,"pa":pa,"results":results}));
+            t.ev(json!({"ev":"poll","now":now,"deadline":d,"rx":rxp,"out":outs,"pa":pa,"results":results,"probe":probe}));
         }
         let open: Vec<usize> = handles.iter().filter(|x| x.3).map(|x| x.0).collect();
         t.ev(json!({"ev":"end","now":now,"open":open}));
